@@ -18,7 +18,7 @@ REPO = os.environ.get('VERIF_REPO', '/repo')
 sys.path.insert(0, os.path.join(VERIF, 'harness'))
 
 KANI_FLAGS = ['-Z', 'stubbing', '-Z', 'unstable-options']
-TOTAL_MEM_GB = 52
+TOTAL_MEM_GB = 56
 
 
 def log(*a):
@@ -132,6 +132,21 @@ def _limits(mem_gb):
     return f
 
 
+RUNNING = set()
+SCRATCH = [None]
+
+
+def _on_term(signum, frame):
+    for pid in list(RUNNING):
+        try:
+            os.killpg(pid, signal.SIGKILL)
+        except Exception:
+            pass
+    if SCRATCH[0]:
+        shutil.rmtree(SCRATCH[0], ignore_errors=True)
+    os._exit(2)
+
+
 def run_cmd(cmd, cwd, timeout, mem_gb=None, logfile=None, env=None):
     e = dict(os.environ)
     e['CARGO_NET_OFFLINE'] = 'true'
@@ -143,6 +158,7 @@ def run_cmd(cmd, cwd, timeout, mem_gb=None, logfile=None, env=None):
     p = subprocess.Popen(cmd, cwd=cwd, stdout=out, stderr=subprocess.STDOUT, env=e,
                          preexec_fn=_limits(mem_gb))
     timed_out = False
+    RUNNING.add(p.pid)
     try:
         stdout, _ = p.communicate(timeout=timeout)
     except subprocess.TimeoutExpired:
@@ -152,6 +168,7 @@ def run_cmd(cmd, cwd, timeout, mem_gb=None, logfile=None, env=None):
         except ProcessLookupError:
             pass
         stdout, _ = p.communicate()
+    RUNNING.discard(p.pid)
     if logfile:
         out.close()
         with open(logfile, 'r', errors='replace') as f:
@@ -221,7 +238,7 @@ def parse_playback(text):
         for vm in re.finditer(r'vec!\[([0-9, ]*)\]', body):
             s = vm.group(1).strip()
             vals.append(bytes(int(x) for x in s.split(',') if x.strip()) if s else b'')
-        tests.append((kind, desc, vals))
+        tests.append((kind, desc.split('\n')[0], vals))
     return tests
 
 
@@ -244,17 +261,62 @@ def decode_inputs(sig, vals):
     return out
 
 
+def resolve_unwindset(h, full_name, snap, target, logdir):
+    """Map {'pretty::function#k': n} to CBMC loop identifiers read from the harness' goto binary (cbmc --show-loops)."""
+    import glob
+    cmd = ['cargo', 'kani'] + KANI_FLAGS + ['--only-codegen', '--target-dir', target, '--harness', full_name, '--exact']
+    run_cmd(cmd, snap, 1800, None, os.path.join(logdir, h['name'] + '.codegen.log'))
+    pat = os.path.join(target, 'kani', '*', 'debug', 'build', 'cdshealpix', '*', 'out', '*%d%s.out' % (len(h['name']), h['name']))
+    files = glob.glob(pat)
+    if not files:
+        return None, 'goto binary of %s not found' % h['name']
+    p = subprocess.run(['cbmc', files[0], '--show-loops'], capture_output=True, text=True, timeout=600)
+    loops = {}
+    byfunc = {}
+    for m in re.finditer(r'^Loop (\S+?)\.(\d+):\n  file (\S+) line (\d+)(?: column (\d+))? function (\S+)', p.stdout, re.M):
+        ident, idx, f, line, col, pretty = m.groups()
+        byfunc.setdefault(pretty, []).append((int(line), int(col or 0), '%s.%s' % (ident, idx)))
+    # key 'pretty::function#k' = k-th loop of the function in source order (stable under edits that keep the loop order)
+    for pretty, lst in byfunc.items():
+        for k, (line, col, lid) in enumerate(sorted(lst)):
+            loops['%s#%d' % (pretty, k)] = lid
+    with open(os.path.join(logdir, h['name'] + '.loops'), 'w') as f:
+        for k in sorted(loops):
+            f.write('%s  %s\n' % (k, loops[k]))
+    items = []
+    missing = []
+    for k, n in h['unwindset'].items():
+        found = [lid for pk, lid in loops.items() if pk == k or (k.endswith('#*') and pk.rsplit('#', 1)[0] == k[:-2])]
+        if not found:
+            missing.append(k)
+        for lid in found:
+            items.append('%s:%d' % (lid, n))
+    return items, missing
+
+
 def run_harness(h, full_name, snap, target, logdir, playback=False):
     cmd = ['cargo', 'kani'] + KANI_FLAGS
+    if h.get('unwindset') and 'cbmc_args_resolved' not in h:
+        items, missing = resolve_unwindset(h, full_name, snap, target, logdir)
+        if items is None:
+            return {'name': h['name'], 'status': 'ERROR', 'detail': 'cannot resolve the unwindset: ' + str(missing), 'checks': 0, 'vars': 0,
+                    'clauses': 0, 'solver_s': 0.0, 'wall_s': 0.0, 'covers': {}, 'functions': [], 'unreachable': 0, 'failed': []}
+        else:
+            # a pattern that matches no loop is tolerated (the loop may have been optimised away / not reachable)
+            h['unwindset_missing'] = missing
+            h['cbmc_args_resolved'] = list(h.get('cbmc_args', [])) + (['--unwindset', ','.join(items)] if items else [])
     if playback:
         cmd += ['-Z', 'concrete-playback', '--concrete-playback=print']
     cmd += ['--target-dir', target, '--harness', full_name, '--exact']
     if h.get('solver_cli'):
         cmd += ['--solver', h['solver_cli']]
-    if h.get('cbmc_args'):
-        cmd += ['--cbmc-args'] + h['cbmc_args']
+    cargs = h.get('cbmc_args_resolved', h.get('cbmc_args'))
+    if cargs:
+        cmd += ['--cbmc-args'] + cargs
     lf = os.path.join(logdir, h['name'] + ('.playback' if playback else '') + '.log')
-    rc, text, dt, timed_out = run_cmd(cmd, snap, h['timeout'], h.get('mem_gb', 12), lf)
+    # the playback re-run makes kani-driver parse the full CBMC trace: give it more address space
+    mem = h.get('mem_gb', 12) if not playback else max(28, 3 * h.get('mem_gb', 12))
+    rc, text, dt, timed_out = run_cmd(cmd, snap, h['timeout'] * (2 if playback else 1), mem, lf)
     res = parse_kani(text)
     res.update({'name': h['name'], 'wall_s': round(dt, 2), 'rc': rc, 'timed_out': timed_out, 'log': lf})
     if playback:
@@ -302,13 +364,45 @@ def run_harness(h, full_name, snap, target, logdir, playback=False):
     return res
 
 
+def run_harness_own_target(h, full_name, snap, scratch, logdir, keep=False, playback=False):
+    """Each harness gets its own cargo target directory (Kani recompiles the crate for each harness filter; sharing one
+    directory between concurrent runs would race on the crate artifacts). Removed as soon as the run is over."""
+    target = os.path.join(scratch, 't-' + h['name'] + ('-pb' if playback else ''))
+    try:
+        return run_harness(h, full_name, snap, target, logdir, playback=playback)
+    finally:
+        if not keep:
+            shutil.rmtree(target, ignore_errors=True)
+
+
 # ----------------------------------------------------------------------------------------------
 # native replay
 # ----------------------------------------------------------------------------------------------
 
+REPLAY_DIR = [os.path.join(VERIF, 'replay')]
+
+
+def replay_prepare(scratch):
+    """With VERIF_REPO pointing to another tree (mutant testing), use a private copy of the replay crate that depends on that tree."""
+    if os.path.realpath(REPO) == '/repo':
+        return
+    rdir = os.path.join(scratch, 'replay')
+    shutil.copytree(os.path.join(VERIF, 'replay'), rdir, ignore=shutil.ignore_patterns('target'))
+    ct = os.path.join(rdir, 'Cargo.toml')
+    with open(ct) as f:
+        t = f.read()
+    with open(ct, 'w') as f:
+        f.write(t.replace('path = "/repo"', 'path = "%s"' % os.path.realpath(REPO)))
+    with open(os.path.join(rdir, 'src', 'main.rs')) as f:
+        m = f.read()
+    with open(os.path.join(rdir, 'src', 'main.rs'), 'w') as f:
+        f.write(m.replace('env!("CARGO_MANIFEST_DIR"), "/../harness/', '"%s/harness/' % VERIF))
+    REPLAY_DIR[0] = rdir
+
+
 def replay_build():
     """(Re)build the native replay binary against /repo's working tree, dev and release profile."""
-    rdir = os.path.join(VERIF, 'replay')
+    rdir = REPLAY_DIR[0]
     ok = True
     msgs = []
     for prof in ([], ['--release']):
@@ -321,7 +415,7 @@ def replay_build():
 
 def replay_native(case):
     """Run one replay case {'fn':..., 'args': {...}} in both profiles. Returns (reproduced, detail)."""
-    rdir = os.path.join(VERIF, 'replay')
+    rdir = REPLAY_DIR[0]
     results = {}
     for prof in ('debug', 'release'):
         exe = os.path.join(rdir, 'target', prof, 'replay')
@@ -384,7 +478,11 @@ def main():
     order.sort(key=lambda h: -h.get('cost', h['timeout']))   # longest first, ties in seeded order
 
     scratch = tempfile.mkdtemp(prefix='verif-%s-' % pid.lower(), dir=os.environ.get('VERIF_SCRATCH'))
-    logdir = os.path.join(VERIF, 'logs', pid, args.tier)
+    SCRATCH[0] = scratch
+    signal.signal(signal.SIGTERM, _on_term)
+    signal.signal(signal.SIGINT, _on_term)
+    tag = os.environ.get('VERIF_TAG', '')
+    logdir = os.path.join(VERIF, 'logs', pid, args.tier + ('-' + tag if tag else ''))
     shutil.rmtree(logdir, ignore_errors=True)
     os.makedirs(logdir, exist_ok=True)
     exit_code = 0
@@ -394,6 +492,7 @@ def main():
     inconclusive = []
     try:
         snap, hashes = snapshot(scratch)
+        replay_prepare(scratch)
         names = inject(snap, prop, harnesses)
         target = os.path.join(scratch, 'target')
         ok, bdt, err = kani_build(snap, target, logdir)
@@ -403,10 +502,20 @@ def main():
             write_evidence(pid, prop, args.tier, seed, [], hashes, time.time() - t0, 0,
                            note='compile error: ' + err[:500])
             return 2
-        # native replay binary (only needed when something fails, but build is cheap and catches bitrot)
-        jobs = args.jobs or max(1, min(16, int(TOTAL_MEM_GB // max(h.get('mem_gb', 12) for h in harnesses))))
+        # float properties: the libm contracts are assumptions about the environment; validate them on the platform libm first
+        if prop.get('libm'):
+            okb, msg = replay_build()
+            rep, det = (False, None)
+            if okb:
+                rep, det = replay_native({'fn': 'libm_validate', 'args': {'seed': seed + 1}})
+            if not okb or rep or any(r['rc'] not in (0,) for r in det.values()):
+                log('INCONCLUSIVE: the platform libm does not satisfy the contracts assumed by the harnesses (or the validator does not build)\n' + (msg or json.dumps(det)))
+                write_evidence(pid, prop, args.tier, seed, [], hashes, time.time() - t0, 0, note='libm contract validation failed')
+                return 2
+            log('[%s] libm contracts validated on the platform libm (2e6 seeded random arguments + interval end points +-16 ulp, both profiles)' % pid)
+        jobs = args.jobs or max(1, min(14, int(TOTAL_MEM_GB // max(h.get('mem_gb', 12) for h in harnesses))))
         with cf.ThreadPoolExecutor(max_workers=jobs) as ex:
-            futs = {ex.submit(run_harness, h, names[h['name']], snap, target, logdir): h for h in order}
+            futs = {ex.submit(run_harness_own_target, h, names[h['name']], snap, scratch, logdir, args.keep): h for h in order}
             for fut in cf.as_completed(futs):
                 h = futs[fut]
                 r = fut.result()
@@ -427,7 +536,7 @@ def main():
             h = r['h']
             # expected-SAT witness of an open known finding
             kf = next((k for k in known if k.get('status') == 'open' and k.get('witness_harness') == h['name']), None)
-            pr = run_harness(h, names[h['name']], snap, target, logdir, playback=True)
+            pr = run_harness_own_target(h, names[h['name']], snap, scratch, logdir, args.keep, playback=True)
             if r.get('never_hit'):
                 tests = [t for t in pr.get('playback', []) if t[0] == 'cover' and r['never_hit'] in t[1]]
             else:
@@ -494,7 +603,8 @@ def main():
 
 
 def save_replay(pid, hname, case, detail, fdesc):
-    d = os.path.join(VERIF, 'replays', pid)
+    tag = os.environ.get('VERIF_TAG', '')
+    d = os.path.join(VERIF, 'logs', 'replays-' + tag, pid) if (tag or os.path.realpath(REPO) != '/repo') else os.path.join(VERIF, 'replays', pid)
     os.makedirs(d, exist_ok=True)
     dig = hashlib.sha256(json.dumps(case, sort_keys=True).encode()).hexdigest()[:12]
     p = os.path.join(d, '%s-%s.json' % (hname, dig))
@@ -527,7 +637,7 @@ def write_evidence(pid, prop, tier, seed, results, hashes, wall, nviol, known_li
     for r in sorted(results, key=lambda r: r['name']):
         h = r['h']
         s = {'harness': r['name'], 'call': h['call'], 'domain': h.get('domain', ''), 'status': r['status'],
-             'unwind': h.get('unwind'), 'cbmc_args': h.get('cbmc_args', []),
+             'unwind': h.get('unwind'), 'unwindset': h.get('unwindset') or {}, 'cbmc_args': h.get('cbmc_args_resolved', h.get('cbmc_args', [])),
              'stubs': ['%s -> %s' % s for s in h.get('stubs', [])],
              'checks': r['checks'], 'unreachable_checks': r['unreachable'], 'sat_vars': r['vars'], 'sat_clauses': r['clauses'],
              'solver_s': round(r['solver_s'], 2), 'wall_s': r['wall_s'],
@@ -572,8 +682,10 @@ def write_evidence(pid, prop, tier, seed, results, hashes, wall, nviol, known_li
     }
     if note:
         ev['coverage']['note'] = note
-    os.makedirs(os.path.join(VERIF, 'evidence'), exist_ok=True)
-    with open(os.path.join(VERIF, 'evidence', pid + '.json'), 'w') as f:
+    tag = os.environ.get('VERIF_TAG', '')
+    evdir = os.path.join(VERIF, 'logs', 'evidence-' + tag) if (tag or os.path.realpath(REPO) != '/repo') else os.path.join(VERIF, 'evidence')
+    os.makedirs(evdir, exist_ok=True)
+    with open(os.path.join(evdir, pid + '.json'), 'w') as f:
         json.dump(ev, f, indent=1)
 
 
